@@ -1,6 +1,6 @@
 (** C09 - Socket.IO encoding round-trips, matches the v5 format, leaves its input intact.
     This file holds statements only; every proof is `exact <lemma>`. *)
-From SioV Require Import Base.GoSem Sio.Json Sio.JsonProofs Sio.Header Sio.HeaderProofs Sio.Binary Sio.BinaryProofs Sio.Codec Sio.CodecProofs Sio.RoundtripProofs.
+From SioV Require Import Base.GoSem Sio.Json Sio.JsonProofs Sio.Header Sio.HeaderProofs Sio.Binary Sio.BinaryProofs Sio.Codec Sio.CodecProofs Sio.RoundtripProofs Sio.ReconProofs.
 
 (** Encode hands back the value it was given exactly as it was (every cell deconstruct overwrote
     with a placeholder is restored), for every JSON library, value tree of any depth, header and
@@ -97,3 +97,31 @@ Example C09_wire_side_conditions_satisfiable :
                          VAny (VMap [([97%N], VAny (VBin [9%N])); ([98%N], VAny (VSlice [VAny (VBin [1%N])]))])]) in
   wfv x = true /\ pkt_ok (mkHeader 2 [47%N] None 0) x = true.
 Proof. vm_compute. auto. Qed.
+
+(** reconstruct after deconstruct, for value trees of any depth, any handler type that fits the
+    value's shape, any position of the packet's attachments among the buffers ([pre] / [post]),
+    any JSON library with H1: unmarshalling what the JSON encoder was shown into the handler's
+    type and reconstructing with the attachments gives the value's shape back (as that type shows
+    it: [any] cells hold Go maps, so their objects come back with sorted keys); the buffers are the
+    binary leaves left to right and there are as many placeholders as leaves.  [ty_ok] is the
+    side condition of the finding any-handler-binary, [nofake] excludes user objects that read
+    {"_placeholder":true,"num":n} (inherent to the protocol). *)
+Theorem C09_reconstruct_deconstruct :
+  forall (marshal : jv -> bytes) (unmarshal : bytes -> option jv),
+  (forall j, unmarshal (marshal j) = Some j) ->
+  forall st v n m bs n' t pre post,
+  cleanb v = true -> msorted v = true -> wokp false 2 v = true ->
+  dv marshal st v n = Ok (m, bs, n') ->
+  wtb t (shape v) = true -> ty_ok t (shape v) = true -> nofake (shape v) = true ->
+  length pre = N.to_nat n ->
+  exists j, to_jv unmarshal (cur m) = Ok j /\
+            recon marshal (Some (pre ++ bs ++ post)) t j = Ok (view_ty t (shape v)) /\
+            bs = leaves (shape v) /\ n' = (n + N.of_nat (length bs))%N.
+Proof. exact reconstruct_deconstruct. Qed.
+
+(** Without [ty_ok]: a Binary received into an [any] parameter stays a placeholder map. *)
+Theorem C09_reconstruct_any_refuted :
+  exists v m bs n', dv jprint true v 0 = Ok (m, bs, n') /\
+    exists j, to_jv jparse (cur m) = Ok j /\
+              recon jprint (Some bs) TAny j <> Ok (view_ty TAny (shape v)).
+Proof. exact reconstruct_any_refuted. Qed.
